@@ -43,6 +43,11 @@ func (c *SimClock) TickAfter(d time.Duration) <-chan time.Time {
 	defer c.mu.Unlock()
 	ch := make(chan time.Time, 1)
 	if d <= 0 {
+		// A zero wait still lets a real clock move on; without this the
+		// expiry watcher spins forever when the simulated time stands exactly
+		// on an invoice's expiry instant (it cancels only when expiry is
+		// strictly before Now() but asks for a zero-length tick until then).
+		c.now = c.now.Add(time.Nanosecond)
 		ch <- c.now
 		return ch
 	}
